@@ -214,7 +214,11 @@ impl<'a> Interp<'a> {
         self.refresh_infos();
 
         // ---- C02 containment / dangling
+        let ledger = oalloc::installed();
         for i in 0..NSLOT {
+            if !ledger {
+                break;
+            }
             let h = self.infos[i];
             let span = match h.kind {
                 1 if h.len > 0 => h.len,
@@ -412,6 +416,9 @@ impl<'a> Interp<'a> {
             self.dg_u(uniq as u64);
             let mut must_false = origin != Origin::Heap;
             let mut must_true = false;
+            if !ledger && origin == Origin::Heap {
+                continue;
+            }
             let mut was_multi = false;
             if let Some(b) = h.blk {
                 let (any, nonempty) = self.others_in_block(i, b.serial);
@@ -484,7 +491,7 @@ impl<'a> Interp<'a> {
                 );
             }
         }
-        {
+        if ledger {
             let mut live = Vec::new();
             oalloc::live_blocks(&mut live);
             for b in live {
